@@ -178,7 +178,7 @@ func c14Check(cc *run.Case, ns namedStrat, class string, n int) bool {
 		case name == "Outcome":
 			for k := 0; k < rows && first+k < len(outs); k++ {
 				want := outs[first+k] * 100
-				if math.Abs(d.Nums[i][k]-want) > 1e-9*math.Max(1, math.Abs(want)) {
+				if !(math.Abs(d.Nums[i][k]-want) <= 1e-9*math.Max(1, math.Abs(want))) && !(math.IsNaN(d.Nums[i][k]) && math.IsNaN(want)) {
 					return fail("", fmt.Sprintf("row %d (%s): Outcome column shows %v, the outcome as of that date is %v", k, d.Dates[k].Format("2006-01-02"), d.Nums[i][k], want))
 				}
 			}
